@@ -9,6 +9,7 @@ import (
 	"flag"
 	"fmt"
 	"go/ast"
+	"go/build/constraint"
 	"go/parser"
 	"go/token"
 	"os"
@@ -53,7 +54,7 @@ func loadPkg(repo, rel string) *pkg {
 			fatal("%v", err)
 		}
 		// files guarded by the verif build tag are hooks, never part of the model
-		if strings.Contains(string(src), "//go:build verif") {
+		if verifOnly(filepath.Join(p.dir, n), src) {
 			continue
 		}
 		f, err := parser.ParseFile(p.fset, filepath.Join(p.dir, n), src, parser.ParseComments)
@@ -72,6 +73,46 @@ func loadPkg(repo, rel string) *pkg {
 		}
 	}
 	return p
+}
+
+// verifOnly: the file carries the build constraint `//go:build verif` exactly (this framework's add-only accessors).  Any
+// other constraint that mentions the tag (`!verif`, `verif && x`, ...) would make the library the harness is built from
+// (-tags verif) differ from the code that is translated: refused.
+func verifOnly(path string, src []byte) bool {
+	for i, line := range strings.Split(string(src), "\n") {
+		line = strings.TrimSpace(line)
+		if strings.HasPrefix(line, "package ") {
+			break
+		}
+		if !constraint.IsGoBuild(line) {
+			continue
+		}
+		x, err := constraint.Parse(line)
+		if err != nil {
+			panic(unsupported{token.Position{Filename: path, Line: i + 1}, "build constraint: " + err.Error()})
+		}
+		if x.String() == "verif" {
+			return true
+		}
+		mentions := false
+		x.Eval(func(tag string) bool {
+			if tag == "verif" {
+				mentions = true
+			}
+			return false
+		})
+		// Eval short-circuits: ask again with every other tag true
+		x.Eval(func(tag string) bool {
+			if tag == "verif" {
+				mentions = true
+			}
+			return true
+		})
+		if mentions {
+			panic(unsupported{token.Position{Filename: path, Line: i + 1}, fmt.Sprintf("build constraint %q: only `//go:build verif` (a hook file, skipped) may mention the verif tag", line)})
+		}
+	}
+	return false
 }
 
 func recvName(e ast.Expr) string {
